@@ -60,6 +60,16 @@ CHECKS = {
             "cache-free twin's; agent-scope owner isolation asserted directly. Cache configs: stage LRU, perf byte caches, turn-level manager.",
             "Trusted: cache-free twin as oracle (same code, caches off); TTL expiry not exercised.",
             "DESIGN.md §3 C05"),
+    "C06": ("exploration",
+            "Hypothesis-generated states and write-load-write chains against a reference sanitisation model (round-trip + byte-identical re-write) and generated salted snapshot directories for discovery",
+            "States with three store shapes (export/import, .w maps with unicode/int/bool/non-finite values, bare, real store), GEL graphs "
+            "(nodes as dict/list, edges as list or dict under canonical/reversed/arbitrary keys, both orientations, repeated pairs, "
+            "weights needing rounding/clamping, on/around the validated bounds, NaN/inf), meta shapes, unicode agent ids, 1-3 generations "
+            "sharing a directory: write -> load into a fresh state -> write -> load -> write; version, store export, canonical edges with "
+            "round6(clamp(w)) and byte-identical second/third bodies, schema marker in body and sidecar; discovery over directories salted "
+            "with sidecars/temps/.zst/~ files carrying newer mtimes must pick the newest real body.",
+            "Trusted: the reference model inside checks/c06.py; which of several records for one pair survives is not asserted (undocumented).",
+            "DESIGN.md §3 C06"),
     "C07": ("exploration",
             "exhaustive enumeration of small JSON object pairs + Hypothesis recursive JSON + atheris byte fuzzing of the delta codec (round-trip law), Hypothesis-generated on-disk scenarios with baseline present/missing/corrupt",
             "Codec law apply_delta(base, compute_delta(base, cur)) == cur in type-exact canonical JSON (also after the delta is "
